@@ -2,7 +2,7 @@
 Python values: int -> number, bytes -> byte string, list/tuple -> list.  str is accepted as ASCII bytes."""
 import re
 
-_IDENT = re.compile(rb'^[A-Za-z_][A-Za-z0-9_./+-]*$')
+_IDENT = re.compile(rb'\A[A-Za-z_][A-Za-z0-9_./+-]*\Z')
 
 
 def dumps(x):
